@@ -448,7 +448,9 @@ type scen struct {
 	actions  int
 	faults   bool
 	rebal    bool
-	scripted string // "lastoffset": the replay of the Coq refutation witness
+	scripted string // "lastoffset": the replay of the Coq refutation witness; "codes"; "evict"
+	code     int16  // "codes": the error code every partition of the next OffsetCommit answers carries
+	verdict  string // set by scripted scenarios: "ok" or "STALLED:..." / "NILNOTRECORDED:..."
 }
 
 type member struct {
@@ -592,7 +594,146 @@ func runLastOffset(b *groupfake.Broker, sc scen, feats map[string]bool) {
 	feats["rebalance"] = true
 }
 
-func runScenario(seed int64, sc scen) (args string, feats string) {
+// ---- wire-level commit answers: the Reader's coordinator connection is the REAL *Conn
+// (Conn.offsetCommit -> timeoutCoordinator -> Generation.CommitOffsets); the fake broker
+// answers the next three OffsetCommit requests with sc.code on every partition.
+//
+//	sync:     whatever CommitMessages returns is recorded; the history predicate
+//	          (sync-commit-recorded) and the direct comparison below decide
+//	interval: CommitMessages returns nil at once; a rejected commit must keep the stash, so
+//	          that a later tick records the offsets (bounded by a watchdog)
+func runCommitCodes(b *groupfake.Broker, sc scen, fs map[string]bool) string {
+	for p := 0; p < sc.parts; p++ {
+		b.Append(topics[0], p, 3)
+	}
+	m := &member{0, "c0", newReader(b, sc, "c0"), nil}
+	defer m.r.Close()
+	want := 2 * sc.parts
+	for i := 0; i < 200 && len(m.held) < want; i++ {
+		m.fetch(b, 100*time.Millisecond)
+	}
+	if len(m.held) == 0 {
+		return "STALLED:no message delivered within the watchdog"
+	}
+	var mu sync.Mutex
+	left := 3
+	if sc.code == 0 {
+		left = 0
+	}
+	b.SetFault(func(api, client, mem string) groupfake.Fault {
+		mu.Lock()
+		defer mu.Unlock()
+		if api == "ocommit" && left > 0 {
+			left--
+			return groupfake.Fault{Code: sc.code}
+		}
+		return groupfake.Fault{}
+	})
+	last := map[int]kafka.Message{}
+	for _, x := range m.held {
+		last[x.Partition] = x
+	}
+	var sel []kafka.Message
+	for p := 0; p < sc.parts; p++ {
+		if x, ok := last[p]; ok {
+			sel = append(sel, x)
+		}
+	}
+	err := m.commit(b, sel)
+	fs[fmt.Sprintf("code=%d", sc.code)] = true
+	recorded := func() bool {
+		for _, x := range sel {
+			if c, ok := b.Committed(x.Topic, x.Partition); !ok || c < x.Offset+1 {
+				return false
+			}
+		}
+		return true
+	}
+	if sc.sync {
+		if err == nil && !recorded() {
+			return fmt.Sprintf("NILNOTRECORDED:code=%d", sc.code)
+		}
+		if err != nil {
+			fs["commiterr"] = true
+		}
+		return "ok"
+	}
+	if !waitCond(6*time.Second, recorded) {
+		return fmt.Sprintf("STALLED:interval commit not recorded within the watchdog after OffsetCommit answers with code %d", sc.code)
+	}
+	return "ok"
+}
+
+// ---- eviction: the coordinator forgets a member mid-generation (UnknownMemberId on its
+// heartbeat, then on its JoinGroup with the stale id; only an empty id is accepted).  The
+// group must reach a new generation and every stored record must be delivered.
+func runEvict(b *groupfake.Broker, sc scen, fs map[string]bool, rng *rand.Rand) string {
+	total := 0
+	for p := 0; p < sc.parts; p++ {
+		n := 3 + rng.Intn(3)
+		b.Append(topics[0], p, n)
+		total += n
+	}
+	var ms []*member
+	for i := 0; i < sc.members; i++ {
+		c := fmt.Sprintf("c%d", i)
+		ms = append(ms, &member{i, c, newReader(b, sc, c), nil})
+	}
+	defer func() {
+		for _, m := range ms {
+			m.r.Close()
+		}
+	}()
+	seen := map[string]bool{}
+	step := func(m *member) {
+		if m.fetch(b, 50*time.Millisecond) {
+			x := m.held[len(m.held)-1]
+			seen[fmt.Sprintf("%d/%d", x.Partition, x.Offset)] = true
+			if rng.Intn(2) == 0 {
+				m.commit(b, m.held[len(m.held)-1:])
+			}
+		}
+	}
+	for i := 0; i < 100 && len(seen) < 2; i++ {
+		step(ms[i%len(ms)])
+	}
+	if len(seen) == 0 {
+		return "STALLED:no message delivered within the watchdog before the eviction"
+	}
+	evictions := 1 + rng.Intn(2)
+	for k := 0; k < evictions; k++ {
+		victim := ms[rng.Intn(len(ms))]
+		id := ""
+		if !waitCond(8*time.Second, func() bool { id = b.MemberOf(victim.client); return id != "" && b.State() == "Stable" }) {
+			return "STALLED:group did not become stable within the watchdog"
+		}
+		gen0 := b.Generation()
+		b.Evict(id, "script")
+		fs["evict"] = true
+		rejoined := func() bool {
+			nid := b.MemberOf(victim.client)
+			return nid != "" && nid != id && b.Generation() > gen0
+		}
+		dl := time.Now().Add(8 * time.Second)
+		for i := 0; !rejoined() && time.Now().Before(dl); i++ {
+			step(ms[i%len(ms)])
+		}
+		if !rejoined() {
+			return "STALLED:evicted member " + victim.client + " did not reach a new generation within the watchdog (member id " + id + ")"
+		}
+	}
+	dl := time.Now().Add(8 * time.Second)
+	for i := 0; len(seen) < total && time.Now().Before(dl); i++ {
+		step(ms[i%len(ms)])
+	}
+	if len(seen) < total {
+		return fmt.Sprintf("STALLED:only %d of %d stored records delivered within the watchdog after the eviction", len(seen), total)
+	}
+	return "ok"
+}
+
+func runScenario(seed int64, sc scen) (args string, feats string, verdict string) {
+	verdict = "ok"
 	rng := rand.New(rand.NewSource(seed))
 	tcfg := map[string]int{}
 	for i := 0; i < sc.topics; i++ {
@@ -603,6 +744,10 @@ func runScenario(seed int64, sc scen) (args string, feats string) {
 	fs := map[string]bool{}
 	if sc.scripted == "lastoffset" {
 		runLastOffset(b, sc, fs)
+	} else if sc.scripted == "codes" {
+		verdict = runCommitCodes(b, sc, fs)
+	} else if sc.scripted == "evict" {
+		verdict = runEvict(b, sc, fs, rng)
 	} else {
 		for i := 0; i < sc.topics; i++ {
 			for p := 0; p < sc.parts; p++ {
@@ -684,7 +829,7 @@ func runScenario(seed int64, sc scen) (args string, feats string) {
 				case 1:
 					f.Drop = 2
 				default:
-					f.Code = []int16{27, 22, 25, 16, 15}[rng.Intn(5)]
+					f.Code = []int16{27, 22, 25, 16, 15, -1, 1, 32767}[rng.Intn(8)]
 				}
 				oneShot.Lock()
 				oneShot.api, oneShot.f = api, f
@@ -731,7 +876,7 @@ func runScenario(seed int64, sc scen) (args string, feats string) {
 		mode = "sync"
 	}
 	fl = append([]string{sc.name, mode, fmt.Sprintf("members=%d", sc.members), fmt.Sprintf("topics=%d", sc.topics)}, fl...)
-	return args, strings.Join(fl, ",")
+	return args, strings.Join(fl, ","), verdict
 }
 
 func cidx(client string) int {
@@ -765,9 +910,9 @@ func encodeHistory(sc scen, h []groupfake.Event, fs map[string]bool) string {
 		return strings.Join(s, "+")
 	}
 	hw := map[string]int64{}
-	ver := map[string]int64{}         // client -> Reader.version
-	inited := map[string]bool{}       // client/version/tp -> first init seen
-	given := map[string]int64{}       // client/tp -> offset of the last "initializing" line
+	ver := map[string]int64{}           // client -> Reader.version
+	inited := map[string]bool{}         // client/version/tp -> first init seen
+	given := map[string]int64{}         // client/tp -> offset of the last "initializing" line
 	streams := map[string][]*[2]int64{} // client/tp -> (version, next offset)
 	var toks []string
 	for i, e := range h {
@@ -879,6 +1024,18 @@ func e2eCases(seed int64, n int) {
 	rng := rand.New(rand.NewSource(seed ^ 0x5eed))
 	var scs []scen
 	scs = append(scs, scen{name: "lastoffset-replay", sync: true, start: kafka.LastOffset, members: 1, topics: 1, parts: 1, scripted: "lastoffset"})
+	if n > 0 {
+		for _, code := range []int16{0, -1, 1, 16, 22, 25, 27, 32767} {
+			for _, sy := range []bool{true, false} {
+				scs = append(scs, scen{name: "wire-commit-codes", sync: sy, start: kafka.FirstOffset, members: 1, topics: 1,
+					parts: 1 + rng.Intn(2), scripted: "codes", code: code})
+			}
+		}
+		for i := 0; i < 6; i++ {
+			scs = append(scs, scen{name: "evict-liveness", sync: i%2 == 0, start: kafka.FirstOffset, members: 1 + i%2, topics: 1,
+				parts: 1 + rng.Intn(3), scripted: "evict"})
+		}
+	}
 	for i := 0; i < n; i++ {
 		sc := scen{sync: i%3 != 2, start: kafka.FirstOffset, members: 1 + i%3, topics: 1 + rng.Intn(2), parts: 1 + rng.Intn(3),
 			recs: 2 + rng.Intn(5), actions: 50 + rng.Intn(90), faults: i%2 == 1, rebal: i%4 != 0}
@@ -894,30 +1051,98 @@ func e2eCases(seed int64, n int) {
 		}
 		scs = append(scs, sc)
 	}
-	var wg sync.WaitGroup
-	sem := make(chan struct{}, 12)
-	for i, sc := range scs {
-		i, sc := i, sc
-		s := rng.Int63()
-		wg.Add(1)
-		go func() {
-			defer wg.Done()
-			sem <- struct{}{}
-			defer func() { <-sem }()
-			done := make(chan [2]string, 1)
-			go func() {
-				a, f := runScenario(s, sc)
-				done <- [2]string{a, f}
-			}()
-			select {
-			case r := <-done:
-				emit("hist", r[0], "ok", r[1])
-			case <-time.After(60 * time.Second):
-				emit("hist", fmt.Sprintf("%s %s .", kvfmt.Bool(sc.sync), kvfmt.I(sc.start)), "HANG", fmt.Sprintf("%s,watchdog,scenario=%d", sc.name, i))
-			}
-		}()
+	type result struct {
+		sc    scen
+		seed  int64
+		r     [3]string
+		stall bool
 	}
-	wg.Wait()
+	runOne := func(s int64, sc scen) ([3]string, bool) {
+		done := make(chan [3]string, 1)
+		go func() {
+			a, f, v := runScenario(s, sc)
+			done <- [3]string{a, f, v}
+		}()
+		select {
+		case r := <-done:
+			return r, strings.HasPrefix(r[2], "STALLED")
+		case <-time.After(60 * time.Second):
+			return [3]string{fmt.Sprintf("%s %s .", kvfmt.Bool(sc.sync), kvfmt.I(sc.start)), sc.name + ",watchdog", "HANG"}, true
+		}
+	}
+	var mu sync.Mutex
+	var stalled []result
+	strikes := 0
+	runAll := func(list []scen, breaker bool) {
+		var wg sync.WaitGroup
+		sem := make(chan struct{}, 12)
+		for _, sc := range list {
+			sc := sc
+			s := rng.Int63()
+			wg.Add(1)
+			go func() {
+				defer wg.Done()
+				sem <- struct{}{}
+				defer func() { <-sem }()
+				mu.Lock()
+				tripped := breaker && strikes >= 3
+				mu.Unlock()
+				if tripped { // three-strikes breaker: a tree that really stalls is reported in seconds
+					return
+				}
+				r, stall := runOne(s, sc)
+				if stall {
+					mu.Lock()
+					strikes++
+					stalled = append(stalled, result{sc, s, r, true})
+					mu.Unlock()
+					return
+				}
+				emit("hist", r[0], r[2], r[1])
+			}()
+		}
+		wg.Wait()
+	}
+	// phase 1: the scripted scenarios (refutation replay, wire-level commit answers, evictions)
+	var scripted, random []scen
+	for _, sc := range scs {
+		if sc.scripted != "" {
+			scripted = append(scripted, sc)
+		} else {
+			random = append(random, sc)
+		}
+	}
+	runAll(scripted, true)
+	// confirmation: a scenario that stalled or hit the watchdog is re-run ALONE with the same
+	// seed before it is declared; one confirmed stall is enough to declare the others
+	confirmed := false
+	reruns := 0
+	confirm := func() {
+		for _, st := range stalled {
+			if confirmed || reruns >= 3 {
+				emit("hist", st.r[0], st.r[2], st.r[1]+",unconfirmed-breaker")
+				continue
+			}
+			reruns++
+			r, stall := runOne(st.seed, st.sc)
+			if stall {
+				confirmed = true
+				emit("hist", r[0], r[2], r[1]+",confirmed-alone")
+			} else {
+				emit("hist", r[0], r[2], r[1]+",stalled-once-ok-alone")
+			}
+		}
+		stalled = nil
+	}
+	confirm()
+	if confirmed {
+		// the tree stalls: do not burn minutes in the random scenarios (they would spin too)
+		emit("hist", "1 -2 .", "ok", "random-scenarios-skipped-after-confirmed-stall")
+		return
+	}
+	// phase 2: the random scenarios
+	runAll(random, false)
+	confirm()
 }
 
 // ---------------------------------------------------------------- random model runs
